@@ -3,12 +3,33 @@
 From Coq Require Import NArith List.
 From QV.Base Require Import Res Bytes.
 From QV.Gen Require Import Consts.
-From QV.Conf Require Import IniModel IniSpec AconfModel AconfSpec AconfProofs.
+From QV.Conf Require Import IniModel IniSpec IniProofs AconfModel AconfSpec AconfProofs.
 Import ListNotations.
 Local Open Scope N_scope.
+
+(* INI-style parser: for every well-formed document d, every layout (white space, final newline), every separator, every
+   environment and whatever external commands would print, parsing the rendered text yields exactly the entries the
+   reference semantics assigns to d: file order, comments and blank lines ignored, "section." prefixes and the section marker
+   entry, ${name} replaced by the value in effect at that line, ${%NAME} by the environment. *)
+Theorem C20_ini_roundtrip : forall env cmd sep final_nl d, ini_wf env QCONF_MAX_SUBSTITUTIONS sep d = true ->
+  ini_parse_str env cmd sep (ini_render sep final_nl d) = Ok (ini_eval env d).
+Proof. exact ini_roundtrip. Qed.
 
 (* every boolean spelling, in any letter case, and nothing else *)
 Theorem C20_is_bool_spec : forall s, is_str_bool s = bool_form s.
 Proof. exact is_bool_spec. Qed.
 
+(* non-vacuity: a document with a comment, a section, a re-definition, references to both and to the environment is well-formed *)
+Definition ex_env (n : list N) : option (list N) := if list_eqb n [72] then Some [47; 104] else None.
+Definition ex_lay : lay := {| l_pre := [32]; l_mid1 := [9]; l_mid2 := [32; 32]; l_post := [13] |}.
+Definition ex_doc : ini_doc :=
+  [(IComment [32; 104; 105], ex_lay); (IEntry [97] [PLit [49]], ex_lay); (IEntry [97] [PRef [97]; PLit [50]], ex_lay);
+   (ISection [115], ex_lay); (IEntry [98] [PRef [97]; PLit [32; 45; 32]; PEnv [72]; PRef [115; 46]], ex_lay); (IBlank, ex_lay);
+   (ISection [], ex_lay); (IEntry [99] [PRef [115; 46; 98]; PEnv [90]], ex_lay)].
+Example C20_ex_ini : ini_wf ex_env QCONF_MAX_SUBSTITUTIONS 61 ex_doc = true /\
+  ini_eval ex_env ex_doc = [([97], [49]); ([97], [49; 50]); ([115; 46], [115]); ([115; 46; 98], [49; 50; 32; 45; 32; 47; 104; 115]);
+                            ([99], [49; 50; 32; 45; 32; 47; 104; 115])].
+Proof. vm_compute. auto. Qed.
+
+Print Assumptions C20_ini_roundtrip.
 Print Assumptions C20_is_bool_spec.
